@@ -37,10 +37,14 @@ CMENU = [{'s': 'pass', 'ctc': 0}, {'s': 'fail', 'ctc': 0}, {'s': 'pass', 'ctc': 
 HMENU = [{'s': 'sub:1,1,0', 'subm': 'page one\x0cpage two\u2028three\x85four\x1cfive\x0bsix'}]
 DMENU = [{'dt': 'string', 's': 'fail', 'dk': 'diff'}, {'dt': 'file', 's': 'fail', 'dk': 'exc'},
          {'dt': 'string', 's': 'pass'}, {'dt': 'file', 's': 'pass'}]
-MODEARGS = {'seq': [], 'j2': ['-j2'], 'j3': ['-j3'],
+MODEARGS = {'seq': [], 'j2': ['-j2'], 'j3': ['-j3'], 'j20': ['-j20'],
             # children whose real stderr carries more text after the report
             # (atexit handlers, interpreter shutdown messages)
-            'j2+late': ['-j2']}
+            'j2+late': ['-j2'],
+            # other formatters / verbosity: the numbers must not depend on them
+            'p': ['-p'], 'v4': ['-vvvv'], 'c': ['-c'], 'slow': ['--slow-test', '0'],
+            'p+j2': ['-p', '-j2'], 'c+j2': ['-c', '-j2'], 'autoprogress': ['--auto-progress']}
+FMT_MODES = ['p', 'v4', 'c', 'slow', 'p+j2', 'c+j2', 'autoprogress']
 
 
 def _o_filter(case):
@@ -56,6 +60,13 @@ def cases(tier, seed):
     modes = ['seq', 'j2', 'j2+late'] if tier == 'quick' else ['seq', 'j2', 'j3', 'j2+late']
     for where in ('unit', 'layer_test'):
         yield ['cwd', where, 'resumed']
+    # a world that is not small: 12 layers x 40 tests + 30 unit tests
+    for nie in (None, 0, 5):
+        for mode in ('seq', 'j2', 'j3', 'p', 'c+j2'):
+            for rep in (1, 2):
+                if rep == 2 and mode not in ('seq', 'j2'):
+                    continue
+                yield ['BIG', [], {}, 0, 1 if mode in ('p', 'c+j2') else 0, rep, mode, nie]
     menu = worlds.rot(MENU + DMENU + HMENU + CMENU, seed)
     for shape in ow.SHAPES:
         nslots = len(ow.SHAPES[shape][1])
@@ -74,6 +85,14 @@ def cases(tier, seed):
                 for rep in (1, 2):
                     for mode in modes:
                         yield [shape, sc, lf, bm, v, rep, mode]
+            if not bm and shape in ('A1B2c', 'N1B2C1', 'U1A2'):
+                for mode in FMT_MODES:
+                    if mode.startswith('p') and any(isinstance(x, dict) and x.get('ctc') == 0 for x in sc):
+                        # (a layer whose tests all count as 0 test cases makes
+                        # the progress percentage divide by zero: such test
+                        # objects are outside the stated worlds)
+                        continue
+                    yield [shape, sc, lf, bm, 1 if mode != 'v4' else 0, 1, mode]
 
 
 def setup_worker():
@@ -92,15 +111,18 @@ def run_cwd(where, mode):
 
 def _ran_lines(b):
     return [tuple(int(x) for x in m) for m in
-            runrt.RAN_RE.findall((b or b'').decode('utf-8', 'replace'))]
+            runrt.RAN_RE.findall(runrt.strip_ansi((b or b'').decode('utf-8', 'replace')))]
 
 
 def run_case(case):
     if case[0] == 'cwd':
         return {'evals': 1, 'nontrivial': 1, 'violations': run_cwd(case[1], case[2]),
                 'outcome': 'cwd', 'nogate': True}
-    shape, sc, lf, bm, v, rep, mode = case
-    spec = ow.build(shape, sc, lf, extra={'bad_modules': ['vtw.broken']} if bm else None)
+    shape, sc, lf, bm, v, rep, mode = case[:7]
+    if shape == 'BIG':
+        spec = ow.big_spec(nie=case[7])
+    else:
+        spec = ow.build(shape, sc, lf, extra={'bad_modules': ['vtw.broken']} if bm else None)
     argv = list(MODEARGS[mode])
     if v:
         argv.append('-' + 'v' * v)
@@ -135,7 +157,7 @@ def run_case(case):
     skips_in_children = 0
     for vpid, out in outs.items():
         got = _ran_lines(out)
-        if vpid == 0 and mode != 'seq':
+        if vpid == 0 and '-j' in ' '.join(argv):
             # the empty first layer of a -j parent (one line per iteration)
             n0 = 0
             while n0 < rep and n0 < len(got) and got[n0] == (0, 0, bm, 0):
@@ -175,7 +197,7 @@ def run_case(case):
     S = truth.skip
     if res.ran != T:
         V('runner_ran', 'Runner.ran=%s, tests executed (once per layer)=%s' % (res.ran, T))
-    m = runrt.TOTAL_RE.search(res.out_own.decode('utf-8', 'replace'))
+    m = runrt.TOTAL_RE.search(runrt.strip_ansi(res.out_own.decode('utf-8', 'replace')))
     if m:
         got = tuple(int(x) for x in m.groups())
         if got[:3] != (T, F, E):
@@ -187,7 +209,7 @@ def run_case(case):
                 V('total_skipped', 'Total says %d skipped, really %d (in children: %d)' % (got[3], S, skips_in_children))
     else:
         nlayers = len({lay for (vp, lay) in per_layer_tests}) + len(truth.layer_err)
-        if nlayers > 1 and mode == 'seq' and not lf:
+        if nlayers > 1 and '-j' not in ' '.join(argv) and not lf:
             V('no_total_line', res.text[-400:])
     # ---- names
     ftests, flayers, fsubs, fother = ow.split_names(res.failures or [])
@@ -200,7 +222,7 @@ def run_case(case):
     if msg:
         V('layer_entries', msg)
     if v >= 1:
-        text = res.out_own.decode('utf-8', 'replace')
+        text = runrt.strip_ansi(res.out_own.decode('utf-8', 'replace'))
         for hdr, lst in (('Tests with failures:', res.failures), ('Tests with errors:', res.errors)):
             names = runrt.parse_name_list(text, hdr)
             if (names or []) != list(lst or []):
